@@ -297,10 +297,10 @@ theorem rangeUpdates_ok (o : Options) (pidx fid : Nat) (cl : List Child) (idxs :
         have := hv stop c hle (by omega) hc
         simp [versionUpdates, hc, this]
 
-theorem update_fields (c : Child) (j : Nat) (t : Int) (hc : c.committed = some t) (hts : commitInfoStart ≤ c.ts) :
+theorem update_fields (c : Child) (j : Nat) (t : Int) (hc : c.committed = some t) (ht : commitInfoStart ≤ t) :
     (c.update j).index = j ∧ (c.update j).version = c.version ∧ (c.update j).changeset = c.changeset ∧
     (c.update j).lat = c.lat ∧ (c.update j).lon = c.lon ∧ (c.update j).ts = t := by
-  have : ¬ c.ts < commitInfoStart := by omega
-  simp [Child.update, updateTimestamp, hc, this]
+  have hb : beforeStart (some t) = false := by simp [beforeStart]; omega
+  simp [Child.update, updateTimestamp, hc, hb]
 
 end OsmVerif.Model.Annotate
